@@ -1,6 +1,6 @@
 """C09 — flow control and pacing (J1939-21 part proved in lean/J1939/Props/C09.lean)."""
 import random, json
-from .. import common as C, corr21, net21, sim
+from .. import common as C, corr21, corr22, net21, sim
 from ..gen21 import rand_payload
 
 PID = 'C09'
@@ -13,7 +13,9 @@ ASSUMPTIONS = ["theorems are single-step (every state / record / frame); the tra
 
 
 def correspondence(ctx):
-    return corr21.run(ctx, ctx.n(150, 5000), ctx.n(40, 1500), 9)
+    a = corr21.run(ctx, ctx.n(150, 5000), ctx.n(40, 1500), 9)
+    b = corr22.run(ctx, ctx.n(60, 2500), ctx.n(10, 400), 9)          # J1939-22 windows and pacing through the model
+    return corr22.merge(a, b)
 
 
 def stack_vs_stack(rng):
